@@ -3,8 +3,12 @@
 import glob, json, os
 V = os.path.dirname(os.path.dirname(os.path.abspath(__file__)))
 rows = []
+DESC = json.load(open(os.path.join(V, "seeded", "descriptions.json")))
 for f in sorted(glob.glob(os.path.join(V, "seeded", "*", "meta.json"))):
     m = json.load(open(f))
+    if DESC.get(m["id"]) and m.get("needs_to_manifest") != DESC[m["id"]]:
+        m["needs_to_manifest"] = DESC[m["id"]]
+        json.dump(m, open(f, "w"), indent=1)
     chk = [r for r in m["ran"] if r["cmd"].startswith("tools/check.py")]
     rows.append((m["id"], ",".join(m["breaks_property"]), m.get("summary", m.get("needs_to_manifest", "")),
                  "yes" if m.get("ok") else "NO", "yes" if m.get("caught_by_check") else "NO",
